@@ -5,10 +5,11 @@ SPECIFICATION Spec
 CONSTANTS N = 2
           MaxCrashes = 2
           MaxFails = 1
+          MtLen = 0
           CaseN = 2
           CaseCrashes = 1
           CaseKinds = {"L1", "L2"}
           CasePre = {"absent", "complete"}
-INVARIANTS C35_RecordedWereSeenComplete C35_SuccessfulSyncShippedAll C28_Holds
+INVARIANTS C35_PrunedOnlyWhenShipped C35_LocalDeleteOnlyWhenShipped C35_RecordedWereSeenComplete C35_SuccessfulSyncShippedAll C28_Holds
 PROPERTIES EventuallyShipped
 CHECK_DEADLOCK FALSE
